@@ -1,0 +1,96 @@
+//go:build verif
+// +build verif
+
+package manifest
+
+import (
+	"encoding/hex"
+	"fmt"
+
+	"github.com/ovrclk/akash/manifest"
+	"github.com/ovrclk/akash/sdl"
+	"github.com/ovrclk/akash/util/veriftrace"
+	dquery "github.com/ovrclk/akash/x/deployment/query"
+	mtypes "github.com/ovrclk/akash/x/market/types"
+)
+
+// Verification trace points (see util/veriftrace): projections of the manager
+// and service state, emitted by their loops after a state change and before the
+// next select, and one event per reply written to a submitter's channel.
+
+const (
+	vManager = "manifest-manager"
+	vService = "manifest-service"
+)
+
+func (m *manager) vid() string {
+	return fmt.Sprintf("%s#%p", dquery.DeploymentPath(m.daddr), m)
+}
+
+func vhash(mani *manifest.Manifest) string {
+	if mani == nil {
+		return ""
+	}
+	v, err := sdl.ManifestVersion(*mani)
+	if err != nil {
+		return "!" + err.Error()
+	}
+	return hex.EncodeToString(v)
+}
+
+// vtrace emits the projected manager state.
+func (m *manager) vtrace(event string, fetchInFlight bool) {
+	leases := make([]string, 0, len(m.leases))
+	for _, l := range m.leases {
+		leases = append(leases, l.LeaseID.String())
+	}
+	requests := make([]string, 0, len(m.requests))
+	for _, r := range m.requests {
+		requests = append(requests, fmt.Sprintf("%p", r.ch))
+	}
+	pending := make([]string, 0, len(m.pendingRequests))
+	for _, ch := range m.pendingRequests {
+		pending = append(pending, fmt.Sprintf("%p", ch))
+	}
+	manifests := make([]string, 0, len(m.manifests))
+	for _, mani := range m.manifests {
+		manifests = append(manifests, vhash(mani))
+	}
+	versions := make([]string, 0, len(m.versions))
+	for _, v := range m.versions {
+		versions = append(versions, hex.EncodeToString(v))
+	}
+	data := ""
+	hasData := m.data != nil
+	if hasData {
+		data = hex.EncodeToString(m.data.Deployment.Version)
+	}
+	veriftrace.Emit(vManager, m.vid(), event,
+		"leases", leases, "hasData", hasData, "data", data, "fetch", fetchInFlight,
+		"requests", requests, "pending", pending, "manifests", manifests, "versions", versions,
+		"stoptimer", m.stoptimer != nil)
+}
+
+// vrequest records the arrival of a submission in the manager loop.
+func (m *manager) vrequest(req manifestRequest) {
+	veriftrace.Emit(vManager, m.vid(), "request", "ch", fmt.Sprintf("%p", req.ch), "manifest", vhash(&req.value.Manifest))
+}
+
+// vreply records one reply written to a submitter's channel.
+func (m *manager) vreply(ch chan<- error, response error) {
+	msg := ""
+	if response != nil {
+		msg = response.Error()
+	}
+	veriftrace.Emit(vManager, m.vid(), "reply", "ch", fmt.Sprintf("%p", ch), "ok", response == nil, "err", msg)
+}
+
+// vannounce records one ManifestReceived publication.
+func (m *manager) vannounce(lease mtypes.LeaseID, mani *manifest.Manifest) {
+	veriftrace.Emit(vManager, m.vid(), "announce", "lease", lease.String(), "manifest", vhash(mani))
+}
+
+// vtrace emits the projected service state.
+func (s *service) vtrace(event string) {
+	veriftrace.Emit(vService, "", event, "managers", len(s.managers), "watchdogs", len(s.watchdogs))
+}
